@@ -123,7 +123,7 @@ func (l *eRec) reset() {
 	l.kind, l.peers, l.files = "", nil, nil
 	l.mu.Unlock()
 }
-func (l *eRec) wait() {
+func (l *eRec) wait() bool {
 	l.mu.Lock()
 	n := l.pending
 	l.pending = 0
@@ -131,10 +131,11 @@ func (l *eRec) wait() {
 	for ; n > 0; n-- {
 		select {
 		case <-l.done:
-		case <-time.After(5 * time.Second):
-			return
+		case <-time.After(wedgeLimit):
+			return false
 		}
 	}
+	return true
 }
 func (l *eRec) coq() (string, map[string]interface{}) {
 	l.mu.Lock()
@@ -218,6 +219,13 @@ func e2eRun(o *Out, kind string, cfg eCfg, reqs []eReq) {
 		rec.reset()
 		rec.gate = make(chan struct{})
 		obs := map[string]interface{}{}
+		cancel := wedgeWatch(wedgeLimit, fmt.Sprintf("request %d (%s) of an end-to-end history", idx, r.T), func() map[string]interface{} {
+			var jr []interface{}
+			for _, q := range reqs[:idx+1] {
+				jr = append(jr, q)
+			}
+			return map[string]interface{}{"cfg": cfg, "reqs": jr}
+		})
 		switch r.T {
 		case "clock":
 			clock = r.Ns
@@ -242,7 +250,14 @@ func e2eRun(o *Out, kind string, cfg eCfg, reqs []eReq) {
 				buf[i] = 0
 			}
 			close(rec.gate)
-			rec.wait()
+			if !rec.wait() {
+				var jr []interface{}
+				for _, q := range reqs[:idx+1] {
+					jr = append(jr, q)
+				}
+				wedgeFail(fmt.Sprintf("the post-response hook of request %d (%s) of an end-to-end history did not finish within %v", idx, r.T, wedgeLimit),
+					map[string]interface{}{"cfg": cfg, "reqs": jr})
+			}
 			var macs []string
 			add := func(m []byte) {
 				macs = append(macs, fmt.Sprintf("(%s, %s, %s)", cB([]byte(cfg.Key)), cB(m), cB(e2eMac([]byte(cfg.Key), m))))
@@ -300,7 +315,14 @@ func e2eRun(o *Out, kind string, cfg eCfg, reqs []eReq) {
 				hh.ServeHTTP(w, hr)
 			}()
 			close(rec.gate)
-			rec.wait()
+			if !rec.wait() {
+				var jr []interface{}
+				for _, q := range reqs[:idx+1] {
+					jr = append(jr, q)
+				}
+				wedgeFail(fmt.Sprintf("the post-response hook of request %d (%s) of an end-to-end history did not finish within %v", idx, r.T, wedgeLimit),
+					map[string]interface{}{"cfg": cfg, "reqs": jr})
+			}
 			host, _, splitErr := net.SplitHostPort(r.Remote)
 			var ips []string
 			for _, s := range e2eIPCands(uri, hdrval, host) {
@@ -350,8 +372,17 @@ func e2eRun(o *Out, kind string, cfg eCfg, reqs []eReq) {
 			terms = append(terms, "EDump "+cList(items))
 		}
 		jobs = append(jobs, obs)
+		cancel()
 	}
+	cancelStop := wedgeWatch(wedgeLimit, "stopping the store after an end-to-end history", func() map[string]interface{} {
+		var jr []interface{}
+		for _, q := range reqs {
+			jr = append(jr, q)
+		}
+		return map[string]interface{}{"cfg": cfg, "reqs": jr}
+	})
 	<-store.Stop()
+	cancelStop()
 	cc := fmt.Sprintf("{| e_key := %s; e_skew := %s; e_uspoof := %s; e_hspoof := %s; e_hdrname := %s; e_maxnw := %d; e_defnw := %d; e_maxscrape := %d; e_interval := %s; e_min_interval := %s |}",
 		cB([]byte(cfg.Key)), cZ(cfg.SkewNs), cBool(cfg.USpoof), cBool(cfg.HSpoof), cB([]byte(cfg.HdrName)), cfg.MaxNW, cfg.DefNW, cfg.MaxScrape, cZ(cfg.Interval), cZ(cfg.MinIntv))
 	var jr []interface{}
@@ -465,8 +496,32 @@ func e2eStream(o *Out, rng *rand.Rand, n int) {
 					}
 				}
 				var opts []byte
-				if rng.Intn(4) == 0 {
+				switch rng.Intn(8) {
+				case 0, 1:
 					opts = []byte{2, 5, '/', '?', 'a', '=', 'b', 1, 0}
+				case 2:
+					// BEP 41 allows any number of URLData options: a long request string chained over
+					// many options (totals around the multiples of 255 and up to what a 2048-byte datagram holds)
+					total := []int{254, 255, 256, 509, 510, 511, 512, 700, 765, 766, 1020, 1021, 1500, 1900}[rng.Intn(14)]
+					data := append([]byte("/?a=b&pad="), bytes.Repeat([]byte{'x'}, total)...)[:total]
+					for len(data) > 0 {
+						n := 255
+						if rng.Intn(4) == 0 {
+							n = 1 + rng.Intn(255)
+						}
+						if n > len(data) {
+							n = len(data)
+						}
+						opts = append(opts, 2, byte(n))
+						opts = append(opts, data[:n]...)
+						data = data[n:]
+						if rng.Intn(6) == 0 {
+							opts = append(opts, 1)
+						}
+					}
+					if rng.Intn(2) == 0 {
+						opts = append(opts, 0)
+					}
 				}
 				pkt := e2eAnnouncePacket(rng, v6a, ih, p.id, left, uint32(rng.Intn(4)), field, nw, p.port, opts)
 				reqs = append(reqs, eReq{T: "udp", IP: hx(p.src), Packet: hx(pkt), FixConn: true})
